@@ -7,6 +7,7 @@ import (
 	"github.com/jsightapi/jsight-schema-go-library/fs"
 	"github.com/jsightapi/jsight-schema-go-library/kit"
 	"github.com/jsightapi/jsight-schema-go-library/notations/jschema"
+	"github.com/jsightapi/jsight-schema-go-library/notations/regex"
 	"github.com/jsightapi/jsight-schema-go-library/rules/enum"
 
 	"github.com/jsightapi/jsight-api-go-library/catalog"
@@ -51,6 +52,8 @@ func libLen(kind string, content []byte) (out string) {
 	var err error
 	if kind == "schema" {
 		l, err = jschema.FromFile(file).Len()
+	} else if kind == "regex" {
+		l, err = regex.FromFile(file).Len()
 	} else {
 		l, err = enum.FromFile(file).Len()
 	}
